@@ -271,6 +271,24 @@ func c12ops(tier string) []c12op {
 			}
 			return fmt.Sprint(err)
 		}},
+		// a mixed batch whose request fits one message and whose reply (one error text per failing item) does not: the call
+		// fails as a whole — and nobody may be left holding the files that did open (neither the init nor the host)
+		c12op{"open-mixed-batch-with-an-oversized-reply(8 open, 240 fail)", func(e *c12env, nonce string) string {
+			var cmds []container.OpenCmd
+			for i := 0; i < 8; i++ {
+				cmds = append(cmds, container.OpenCmd{Path: fmt.Sprintf("/w/ok%d-%s", i, nonce), Flag: os.O_CREATE | os.O_WRONLY, Perm: 0644})
+			}
+			for i := 0; i < 240; i++ {
+				cmds = append(cmds, container.OpenCmd{Path: fmt.Sprintf("/w/missing-dir/%s-%d", strings.Repeat("n", 100), i), Flag: os.O_RDONLY})
+			}
+			fr, err := e.c.Open(cmds)
+			for _, f := range fr {
+				if f.File != nil {
+					f.File.Close()
+				}
+			}
+			return fmt.Sprint(err != nil)
+		}},
 		c12op{"open-empty", func(e *c12env, nonce string) string { _, err := e.c.Open(nil); return fmt.Sprint(err != nil) }},
 		c12op{"delete-missing", func(e *c12env, nonce string) string { return fmt.Sprint(e.c.Delete("/w/none") != nil) }},
 		c12op{"symlink", func(e *c12env, nonce string) string {
